@@ -64,6 +64,9 @@ def _mk_ops():
             ops.append(("%s{e%d,e%d}" % (kind, i, j), kind, (i, j)))
     for kind in ("update", "|=", "-=", "&=", "^="):
         ops.append(("%s{}" % kind, kind, ()))
+    for (i, j) in PAIRS[:4]:
+        for kind in ("updateCFG", "|=CFG", "-=CFG", "&=CFG"):
+            ops.append(("%s{e%d,e%d}" % (kind, i, j), kind, (i, j)))
     return ops, n_basic
 
 
@@ -107,6 +110,22 @@ def apply(w, opi):
     elif kind == "clear":
         cfg.clear()
         model.clear()
+    elif kind in ("updateCFG", "|=CFG", "-=CFG", "&=CFG"):
+        other = gtirb.CFG(es)                      # the argument is itself a CFG
+        if kind == "updateCFG":
+            cfg.update(other)
+            model |= keys
+        elif kind == "|=CFG":
+            cfg |= other
+            model |= keys
+        elif kind == "-=CFG":
+            cfg -= other
+            model -= keys
+        else:
+            cfg &= other
+            model &= keys
+        if sorted((key_of(w, e) for e in other), key=str) != sorted(keys, key=str):
+            return "the argument CFG was modified"
     elif kind == "update":
         cfg.update(es)
         model |= keys
